@@ -2,5 +2,5 @@ From Coq Require Import ExtrOcamlBasic.
 From MV Require Import Chain.ChainModel.
 Extraction Language OCaml.
 Cd "../ocaml/gen".
-Extraction "m_c03.ml" validate auth_api accepted parse_gate date_flag.
+Extraction "m_c03.ml" validate auth_api accepted parse_gate date_flag load_crls.
 Cd "../../coq".
